@@ -88,8 +88,13 @@ class BLOB(Element):
 
     def set_value_from_message(self, msg):
         if msg.value is None:
-            # empty or absent payload: there is no BLOB to decode
-            self._value = None
+            # no payload to decode: an empty BLOB (declared size 0) keeps its
+            # format, a missing payload of any other size is unusable
+            try:
+                declared_size = int(msg.size)
+            except (TypeError, ValueError):
+                declared_size = None
+            self._value = values.BLOB(b"", msg.format) if declared_size == 0 else None
             return
 
         blob_value = values.BLOB.from_base64(msg.value, msg.format)
